@@ -62,6 +62,9 @@ type Pipe struct {
 	// Barrier offsets: a read never crosses these device-stream offsets (used to keep two
 	// server messages out of one read).
 	Barriers []int
+	// Spans are the stream ranges [start,end) of whole server messages: a read never carries
+	// bytes of two different spans (bytes outside any span, e.g. echo, may share a read with one).
+	Spans [][2]int
 
 	FaultAt   int // -1 = none; else device bytes delivered before the fault applies
 	FaultKind string
@@ -206,6 +209,12 @@ func (p *Pipe) appendDev(out []byte) {
 		}
 	}
 
+	if ss, ok := p.dev.(interface{ TakeSpans() [][2]int }); ok {
+		for _, sp := range ss.TakeSpans() {
+			p.Spans = append(p.Spans, [2]int{base + sp[0], base + sp[1]})
+		}
+	}
+
 	if len(out) > 0 {
 		p.pending = append(p.pending, out...)
 		p.cond.Broadcast()
@@ -215,8 +224,9 @@ func (p *Pipe) appendDev(out []byte) {
 // InjectMessage appends an unsolicited device message and puts a read barrier after it.
 func (p *Pipe) InjectMessage(b []byte) {
 	p.mu.Lock()
+	start := p.delivered + len(p.pending)
 	p.pending = append(p.pending, b...)
-	p.Barriers = append(p.Barriers, p.delivered+len(p.pending))
+	p.Spans = append(p.Spans, [2]int{start, start + len(b)})
 	p.cond.Broadcast()
 	p.mu.Unlock()
 }
@@ -331,6 +341,27 @@ func (p *Pipe) Read(n int) ([]byte, error) {
 			if bar > p.delivered && bar < p.delivered+k {
 				k = bar - p.delivered
 			}
+		}
+
+		// never two server messages in one read
+		first := -1
+
+		for i, sp := range p.Spans {
+			if sp[1] <= p.delivered || sp[0] >= p.delivered+k {
+				continue
+			}
+
+			if first < 0 {
+				first = i
+
+				continue
+			}
+
+			if sp[0] > p.delivered && sp[0] < p.delivered+k {
+				k = sp[0] - p.delivered
+			}
+
+			break
 		}
 
 		if p.KeepEsc {
